@@ -374,6 +374,8 @@ def build(run):
                 except BaseException as ex:  # noqa: BLE001  (refusals of operands of the wrong shape are fine here)
                     if isinstance(ex, (KeyboardInterrupt, SystemExit)):
                         raise
+                if any(o_ is tgt for o_ in tgt.ufl_operands):
+                    return out          # the input has become its own operand: stop here, the snapshot comparison reports it
         return out
 
     def algs(T):
